@@ -232,6 +232,58 @@ def stream_requests(tier):
     return res
 
 
+def stream_lines_e2e(tier):
+    """C06 end to end: conforming request lines (CRLF and bare LF, mixed) through the REAL reader loop
+    (_RequestManager._do_run on a scripted socket, random read segmentation), then parse_request and read_<method>:
+    every line must be dispatched once and decode to the values sent, whatever its terminator."""
+    import s_framing
+    p, _, _ = mods()
+    R = C.rng("requests-e2e")
+    res = Result("requests-through-reader")
+    n = {"quick": 25, "search": 60, "thorough": 600}[tier]
+    ops, impl = [], []
+    for method in ari.METHODS:
+        for j in range(n):
+            batch = []
+            for _ in range(R.choice([1, 2, 3])):
+                m = method if not batch else R.choice(ari.METHODS)
+                fixed, tail = gen_request(m, R)
+                toks = ari.encode_args(m, fixed, tail, R if j % 2 else None)
+                rid = R.choice(["1", "10000010c3e4d0462", "abc", "7f"])
+                term = R.choice(["\r\n", "\n"])
+                batch.append((rid, m, toks, term, expected(m, fixed, tail)))
+                res.distribution["term_" + ("crlf" if term == "\r\n" else "lf")] += 1
+            s = "".join("|".join([rid, m] + toks) + term for rid, m, toks, term, _ in batch)
+            k = R.choice([0, 0, 1, 2, 5])
+            cuts = sorted(set(R.randrange(1, len(s)) for _ in range(k))) if len(s) > 1 else []
+            b = [0] + cuts + [len(s)]
+            chunks = [s[x:y] for x, y in zip(b, b[1:])]
+            srv = s_framing.real_loop(chunks)
+            ops.append("frame " + " ".join(C.hx(c) for c in chunks if c != ""))
+            impl.append("ok " + " ".join(C.hx(l) for l in srv.lines))
+            res.nontrivial.add(tuple(chunks))
+            case = {"chunks": chunks}
+            if len(srv.lines) != len(batch):
+                res.violation("e2e-line-not-dispatched", "%d request lines (terminators %r) sent as %r: the reader dispatched %d: %r" % (
+                    len(batch), [t for _, _, _, t, _ in batch], chunks, len(srv.lines), srv.lines), case)
+                continue
+            for (rid, m, toks, term, want), tok in zip(batch, srv.lines):
+                pr = p.parse_request(tok)
+                if pr is None or pr["id"] != rid or pr["method"] != m:
+                    res.violation("e2e-parse", "line %r (terminator %r) parsed as %r" % (tok, term, pr), case)
+                    continue
+                ans, got = c_read(m, pr["data"])
+                if not ans.startswith("ok ") or got != want:
+                    res.violation("e2e-decode:" + m, "line with terminator %r decodes to %r, sent %r" % (term, got if ans.startswith("ok") else ans, want), case)
+    res.sample({"op": ops[0], "impl": impl[0]})
+    model = C.run_driver(ops)
+    for op, mo, i in zip(ops, model, impl):
+        res.evaluations += 1
+        if " ".join(mo.split(" ; ")[0].split()) != " ".join(i.split()):
+            res.mismatch(op, mo, i)
+    return res
+
+
 # ------------------------------------------------------------------ scripted adapter + Metadata closures
 ADAPTER_METHODS = ["notify_user", "notify_user_with_principal", "get_allowed_max_bandwidth", "wants_tables_notification",
                    "notify_new_session", "notify_session_close", "get_items", "get_schema", "mode_may_be_allowed",
